@@ -363,7 +363,9 @@ class FitEngine(Engine):
     SWEEP_RUNS = 8
 
     def selftest_indices(self, n):
-        return [0, 4] + list(range(self.SWEEP_RUNS, self.SWEEP_RUNS + n - 2))
+        # the sweep runs (index 0..7) are re-executed under another hash seed by every check's own
+        # determinism re-check (it always includes run 0); the light self-test takes ordinary runs
+        return list(range(self.SWEEP_RUNS, self.SWEEP_RUNS + n))
 
     def generate(self, rng, tier, i):
         import random
@@ -392,6 +394,7 @@ class FitEngine(Engine):
             if i < half:
                 # two peaks; the other caller fits the same kind of spectrum with other noise
                 scn["interleave"] = {"sweep": [i, half], "other_seed": 99, "depth": depth}
+                scn["interrupt"] = {"sweep": [i, half]}
             else:
                 # one peak; the other caller makes the very same call on the same data (two workers
                 # given the same input): whatever one caller leaves in shared state is exactly
@@ -414,6 +417,8 @@ class FitEngine(Engine):
                 scn["windows"]["width"] = float(np.float32(scn["windows"]["width"]))
         if rng.random() < 0.12:
             scn["logging"] = rng.choice(["INFO", "DEBUG"])  # the application has logging switched on
+        if rng.random() < 0.1:
+            scn["interrupt"] = {"frac": rng.random()}  # Ctrl-C inside fit_peaks, then the same call again
         if rng.random() < 0.12:
             scn["interleave"] = {"frac": rng.random(), "where": rng.choice(["site", "site", "line"]),
                                  "other_seed": scn["truth"]["seed"] if rng.random() < 0.3 else rng.randrange(1 << 30)}
@@ -462,6 +467,51 @@ class FitEngine(Engine):
             return self._fit(scn, ctx, da, scn["estimates"], scn["windows"], None, None, label)
         finally:
             _STATE.update(saved)
+
+    def _interrupted(self, scn, ctx, da, R):
+        """The caller is interrupted (Ctrl-C, cancelled task) at a line boundary of _fit_peaks.py and
+        then calls fit_peaks again with the same arguments: the results must be those of the
+        undisturbed call."""
+        import scippneutron.peaks._fit_peaks as fp_mod
+
+        it = scn["interrupt"]
+        prefixes = (fp_mod.__file__,)
+        counter = seams.Preemptor(prefixes, {})
+        _, e0, _ = counter.run(lambda: self._fit(scn, ctx, da, scn["estimates"], scn["windows"], None, None,
+                                                 "counting pass"))
+        if e0 is not None:
+            return
+        total = counter.ordinal
+        if it.get("sweep"):
+            part, of = it["sweep"]
+            pts = [k for k in range(total) if k % of == part]
+            ctx.count("interruption_points_enumerated", len(pts))
+        else:
+            pts = [min(total - 1, int(it["frac"] * total)) if total else 0]
+        want = [canon_result(r) for r in R]
+        for at in pts:
+            ctx.fault_configured("interrupt_in_fit")
+            try:
+                seams.Preemptor(prefixes, {at: seams.interrupt_now}).run(
+                    lambda: self._fit(scn, ctx, da, scn["estimates"], scn["windows"], None, None, "interrupted"))
+                ctx.probe("interruption_point_not_reached")
+                continue
+            except seams.SimInterrupt:
+                _STATE.update(plan=None, log=None, keymap=None, ctx=None)
+            ctx.fault_fired("interrupt_in_fit")
+            ctx.log("interrupted", at, total)
+            R2, e2, _ = self._fit(scn, ctx, da, scn["estimates"], scn["windows"], None, None, "again after interrupt")
+            if e2 is not None:
+                ctx.violate("raised", f"after an interruption at line event {at}/{total} fit_peaks raised {e2}",
+                            kind="raised:after_interrupt", _hint={"int_at": at})
+                return
+            got = [canon_result(r) for r in R2]
+            if got != want:
+                k = next((j for j, (a, b) in enumerate(zip(got, want, strict=False)) if a != b), 0)
+                ctx.violate("isolation", f"after an interruption at line event {at}/{total} the same call returns a "
+                            f"different result for peak {k} than undisturbed", kind="isolation:after_interrupt",
+                            _hint={"int_at": at})
+                return
 
     def _interleaved(self, scn, ctx, da, R):
         """Two callers, two spectra: the second caller's whole fit_peaks runs while the first is
@@ -592,6 +642,8 @@ class FitEngine(Engine):
             ctx.count("single_peak_references", n_est)
         if scn.get("interleave"):
             self._interleaved(scn, ctx, da, R)
+        if scn.get("interrupt"):
+            self._interrupted(scn, ctx, da, R)
         twin_nfev = sum(c.get("nfev", 0) for c in log)
         ctx.count("model_evaluations_twin", twin_nfev)
         if scn.get("decompose") and twin_nfev < 4000:
